@@ -163,21 +163,21 @@ Section Dispatch.
 
   (* [dom]: the domain of the comparison (Model/RefClvm.v); the wrap class of finding F6 only
      matters for opcodes that are dispatched to the unknown-operator rule *)
-  Theorem chia_op_agrees dom ext opc args M :
+  Lemma chia_op_agrees_dom dom ext opc args M :
     ext <> OsPreHardFork ->
-    M < two64 ->
+    (classic_code opc = false -> M < two64) ->
     (classic_code opc = false -> ~ wraps64 opc (arg_lens args) false M) ->
     (forall b, In (Atom b) (items args) -> blen b < 2147483648) ->
-    ref_op H cur dom (ext_kec ext) opc (items args) (ending args) <> Err Unsupported ->
+    non_classic (ext_kec ext) opc || negb (dom opc (items args)) = false ->
     covers M (ref_op H cur dom (ext_kec ext) opc (items args) (ending args)) ->
     agrees (chia_op P true no_flags (Atom opc) args M ext)
            (ref_op H cur dom (ext_kec ext) opc (items args) (ending args)).
   Proof.
-    intros Hext HM Hw Hsz Hcl Hc.
+    intros Hext HM Hw Hsz Enc Hc.
     destruct (ext_flags ext Hext) as [Hpl Hfl].
     unfold ref_op in *. cbn [ad_literal_operands_any_terminator cur negb andb] in *.
-    destruct (non_classic (ext_kec ext) opc || negb (dom opc (items args))) eqn:Enc; [congruence|].
-    clear Hcl. apply orb_false_iff in Enc. destruct Enc as [Enc _].
+    rewrite Enc in *.
+    apply orb_false_iff in Enc. destruct Enc as [Enc _].
     unfold chia_op. set (fl := op_flags no_flags ext) in *.
     assert (Hunknown : classic_code opc = false -> covers M (ref_unknown cur opc (items args)) ->
                        agrees (unknown_operator opc fl args M) (ref_unknown cur opc (items args))).
@@ -203,5 +203,20 @@ Section Dispatch.
       rewrite Ek1, Er1. cbn [andb].
       destruct (length (b :: c :: opc') =? 4)%nat; [apply Hunknown; [reflexivity|exact Hc]|].
       cbn [length Nat.eqb negb]. apply Hunknown; [reflexivity|exact Hc].
+  Qed.
+
+  Theorem chia_op_agrees dom ext opc args M :
+    ext <> OsPreHardFork ->
+    (classic_code opc = false -> M < two64) ->
+    (classic_code opc = false -> ~ wraps64 opc (arg_lens args) false M) ->
+    (forall b, In (Atom b) (items args) -> blen b < 2147483648) ->
+    ref_op H cur dom (ext_kec ext) opc (items args) (ending args) <> Err Unsupported ->
+    covers M (ref_op H cur dom (ext_kec ext) opc (items args) (ending args)) ->
+    agrees (chia_op P true no_flags (Atom opc) args M ext)
+           (ref_op H cur dom (ext_kec ext) opc (items args) (ending args)).
+  Proof.
+    intros Hext HM Hw Hsz Hcl Hc. apply chia_op_agrees_dom; try assumption.
+    unfold ref_op in Hcl.
+    destruct (non_classic (ext_kec ext) opc || negb (dom opc (items args))); [congruence|reflexivity].
   Qed.
 End Dispatch.
